@@ -1,4 +1,4 @@
-\* non-vacuity: broken mechanism update_in_place must be rejected
+\* sessions with routes (thorough): every sequence of <= 4 statements (18 shapes), each typed or stored and .run, on 1 connection
 CONSTANTS
   Headers <- Empty
   Pool <- Empty
@@ -10,11 +10,11 @@ CONSTANTS
   KnownStrings <- NoStrings
   KnownPats <- NoStrings
   Variant = "shipped"
-  NConn = 2
-  MaxSteps = 3
-  Routes = {"typed"}
-  Mech = "update_in_place"
+  NConn = 1
+  MaxSteps = 4
+  Routes = {"typed", "run"}
+  Mech = "shipped"
 INIT SInit
 NEXT SNext
-INVARIANTS Independent
+INVARIANTS Independent RegisteredUntouched
 CHECK_DEADLOCK FALSE
